@@ -42,6 +42,28 @@ def _apply(root: Path, edits):
         if old == "@reformat":
             p.write_text(transforms.reformat(s))
             continue
+        if old in ("@rename_all", "@commute_all"):
+            # every function of the file at once
+            tree = ast.parse(s)
+            quals = []
+
+            def rec(body, pre):
+                for n in body:
+                    if isinstance(n, ast.FunctionDef):
+                        quals.append(pre + n.name)
+                    elif isinstance(n, ast.ClassDef):
+                        rec(n.body, pre + n.name + ".")
+            rec(tree.body, "")
+            done = 0
+            for q in quals:
+                s2 = (transforms.rename_locals if old == "@rename_all" else transforms.commute_mult)(s, q)
+                if s2 is not None:
+                    s = s2
+                    done += 1
+            if not done:
+                return f"skipped: nothing to transform in {file}"
+            p.write_text(s)
+            continue
         if old not in s:
             return "skipped: anchor text not found in " + file
         s2 = s.replace(old, new, 1)
